@@ -38,6 +38,18 @@ CHECKS = {
    text="Validity predicate on every range of every result of the full query sweep over C03's workspaces plus non-ASCII / CRLF / cut-inside-token variants (~60k workspaces per quick run).",
    note="workspace = key set of diagnostics(); text of a file = what the harness' FileSystem served",
    technique="property-based testing: validity predicate over all query results"),
+ "C07": dict(cat="exploration", design="§5 C07",
+   text="Differential oracle after every step of generated edit histories (1..12 operations over a 4-file workspace, 24 text variants per file covering every include subset, renames, moved includes, syntax/type errors, missing includes; server-style and API-style edits, root switches): the long-lived host's full query dump must equal a fresh host's. All ordered pairs of a first operation with a second are enumerated, longer histories are random.",
+   note="every edit is followed by set_root_file; hash-ordered result lists are compared sorted; FileIds are normalised to paths",
+   technique="stateful property-based testing: history generation with a from-scratch differential oracle"),
+ "C16": dict(cat="exploration", design="§5 C16",
+   text="Exhaustive enumeration of every include graph (all edge sets incl. self-loops) over <=3 files (thorough: <=4 files, 65536 graphs) x 6 variants (missing target, INCLUDE_DIR-only target, directory-vs-INCLUDE_DIR choice, doubled include statements, includes nested in a block), checked against a reference reachability/resolution model: termination via traversal budget, exact workspace, exact document links, diagnostics only on unresolvable includes, single indexing, references across all includers.",
+   note="traversal-budget hook in collect_sources / Include::index; search order taken from the documentation",
+   technique="exhaustive small-scope enumeration of configurations against a reference model"),
+ "C20": dict(cat="exploration", design="§5 C20",
+   text="Exhaustive over the finite completion vocabularies in the four contexts x the lexer's tables (acceptance decided by running the server's lexer/parser, candidates harvested from lexer.rs and the reference operator list); class completion on generated multi-file workspaces at every parent-class position with 0..3 typed characters.",
+   note="eight vocabulary mismatches are pinned by a snapshot test and listed as known findings (exact spelling signatures)",
+   technique="exhaustive enumeration of vocabularies + property-based testing of class completion"),
 }
 
 REASON_WIP = "check not built yet in this session (work in progress; see DESIGN.md for the planned generator and oracle)"
